@@ -1556,6 +1556,22 @@ template <typename Key, typename Value, class INode>
   UNODB_DETAIL_ASSERT(is_node_min_size);
 
   if constexpr (std::is_same_v<INode, olc_inode_4<Key, Value>>) {
+    // The node goes away and its remaining child takes its place. If that
+    // child is an inode, its key prefix gets the key prefix of this node and
+    // the dispatching key byte prepended in place, thus it must be write
+    // locked too, otherwise concurrent readers inside it would see the new
+    // prefix without noticing and miss keys that are present.
+    const auto sibling{inode.get_child(child_i == 0 ? 1 : 0)};
+    if (UNODB_DETAIL_UNLIKELY(!node_critical_section.check())) return {};
+
+    const auto sibling_is_inode{sibling.type() != node_type::LEAF};
+    optimistic_lock::read_critical_section sibling_critical_section;
+    if (sibling_is_inode) {
+      sibling_critical_section = node_ptr_lock(sibling).try_read_lock();
+      if (UNODB_DETAIL_UNLIKELY(sibling_critical_section.must_restart()))
+        return {};
+    }
+
     const optimistic_lock::write_guard parent_guard{
         std::move(parent_critical_section)};
     if (UNODB_DETAIL_UNLIKELY(parent_guard.must_restart())) return {};
@@ -1566,6 +1582,12 @@ template <typename Key, typename Value, class INode>
     optimistic_lock::write_guard child_guard{
         std::move(*child_critical_section)};
     if (UNODB_DETAIL_UNLIKELY(child_guard.must_restart())) return {};
+
+    std::optional<optimistic_lock::write_guard> sibling_guard;
+    if (sibling_is_inode) {
+      sibling_guard.emplace(std::move(sibling_critical_section));
+      if (UNODB_DETAIL_UNLIKELY(sibling_guard->must_restart())) return {};
+    }
 
     auto current_node{olc_art_policy<Key, Value>::make_db_inode_reclaimable_ptr(
         &inode, db_instance)};
